@@ -342,6 +342,7 @@ def run_job(job):
             res.sample({"sequence": prefix + [alpha[-1]] * max(0, D - len(prefix)), "api_type": kind})
     else:
         specs = pair_specs(job["tier"])[job["i"]::job["n"]]
+        diverged = []
         for spec in specs:
             orders = set()
 
@@ -361,14 +362,18 @@ def run_job(job):
                 if order is not None:
                     orders.add(order)
 
-            n, capped = X.explore(run, on_exec, bound=None)
+            n, capped = X.explore(run, on_exec, bound=None, on_diverge=lambda ch, msg: diverged.append(msg))
             res.counters["interleaving_schedules"] += n
             res.counters["operation_pairs"] += 1
             res.counters["max_schedules_per_pair"] = max(res.counters["max_schedules_per_pair"], n)
             res.outcome(("orders", len(orders)))
             if len(res.samples) < 1 and len(orders) > 3:
                 res.sample({"instances": spec, "answer_orders_explored": len(orders), "one_order": list(sorted(orders)[len(orders) // 2])})
-        res.counters["max_schedules_per_pair"] = res.counters["max_schedules_per_pair"]
+        res.counters["replay_divergences"] += len(diverged)
+        if diverged and not res.violations:
+            from mc.core import HarnessError
+
+            raise HarnessError(f"{len(diverged)} replayed prefixes diverged without any oracle violation: {diverged[0]}")
     return res
 
 
